@@ -49,6 +49,8 @@ pub struct GenDict {
     pub crlf: bool,
     /// how matrix.def is written: 0 canonical, 1 blank lines, 2 repeated rows (the last one counts), 3 zero cells omitted, 4 '+' and leading zeros
     pub mstyle: u8,
+    /// the built dictionary is written and read back before use
+    pub reload: bool,
 }
 
 pub struct GenOpts {
@@ -270,7 +272,7 @@ pub fn gen_dict(rng: &mut Rng, o: &GenOpts) -> GenDict {
             _ => { cats.retain(|c| c.name != "DEFAULT"); } // DEFAULT never defined
         }
     }
-    GenDict { cats, ranges, unk, sys, user, nright, nleft, matrix, space_clean, unk_covered, bigram: None, declared_conn: false, crlf: rng.chance(1, 6), mstyle: if rng.chance(1, 3) { 1 + rng.below(4) as u8 } else { 0 } }
+    GenDict { cats, ranges, unk, sys, user, nright, nleft, matrix, space_clean, unk_covered, bigram: None, declared_conn: false, crlf: rng.chance(1, 6), mstyle: if rng.chance(1, 3) { 1 + rng.below(4) as u8 } else { 0 }, reload: rng.chance(1, 5) }
 }
 
 impl GenDict {
@@ -328,16 +330,18 @@ impl GenDict {
         let (lex, m, c, u) = (dos(lex), dos(m), dos(c), dos(u));
         let user = user.map(dos);
         let bigram = bigram.map(|(r, l, cost, dual)| (dos(r), dos(l), dos(cost), dual));
+        let reload = self.reload;
         guarded(move || {
             let d = match bigram {
                 Some((r, l, cost, dual)) => vibrato::SystemDictionaryBuilder::from_readers_with_bigram_info(
                     lex.as_bytes(), r.as_bytes(), l.as_bytes(), cost.as_bytes(), c.as_bytes(), u.as_bytes(), dual)?,
                 None => vibrato::SystemDictionaryBuilder::from_readers(lex.as_bytes(), m.as_bytes(), c.as_bytes(), u.as_bytes())?,
             };
-            match user {
-                Some(t) => d.reset_user_lexicon_from_reader(Some(t.as_bytes())),
-                None => Ok(d),
-            }
+            let d = match user {
+                Some(t) => d.reset_user_lexicon_from_reader(Some(t.as_bytes()))?,
+                None => d,
+            };
+            if reload { let mut buf = vec![]; d.write(&mut buf)?; vibrato::Dictionary::read(&buf[..]) } else { Ok(d) }
         })
     }
 
